@@ -1,0 +1,78 @@
+//go:build verif
+
+package proxy
+
+import (
+	"context"
+	"net"
+	"time"
+
+	"go.minekube.com/gate/pkg/edition/java/netmc"
+	"go.minekube.com/gate/pkg/edition/java/profile"
+	"go.minekube.com/gate/pkg/edition/java/proto/packet"
+	"go.minekube.com/gate/pkg/edition/java/proto/state"
+	"go.minekube.com/gate/pkg/gate/proto"
+	"go.minekube.com/gate/pkg/util/uuid"
+)
+
+// Verification hooks for property C11 (player registry). Add-only, no logic:
+// a constructor that builds a connectedPlayer the way HandleConn/authSessionHandler do
+// (real netmc connection over a caller-supplied net.Conn, real session handler whose
+// Disconnected() runs teardown), accessors and thin forwarding functions.
+
+// C11Player wraps a connectedPlayer.
+type C11Player struct{ p *connectedPlayer }
+
+// C11NewPlayer builds a connectedPlayer with the given profile over raw. The connection is the real
+// netmc connection (its read loop is NOT started); its active session handler is the
+// initialConnectSessionHandler, whose Disconnected() calls teardown exactly as the login/play
+// handlers do.
+func C11NewPlayer(px *Proxy, raw net.Conn, name string, id uuid.UUID, online bool) *C11Player {
+	cfg := px.config()
+	conn, _ := netmc.NewMinecraftConn(context.Background(), raw, proto.ServerBound,
+		time.Duration(cfg.ReadTimeout)*time.Millisecond,
+		time.Duration(cfg.ConnectionTimeout)*time.Millisecond,
+		cfg.Compression.Level, nil)
+	deps := &sessionHandlerDeps{
+		proxy:          px,
+		registrar:      px,
+		configProvider: px,
+		eventMgr:       px.event,
+		authenticator:  px.authenticator,
+		loginsQuota:    px.loginsQuota,
+	}
+	prof := &profile.GameProfile{ID: id, Name: name}
+	vhost := &net.TCPAddr{IP: net.IPv4(127, 0, 0, 1), Port: 25565}
+	p := newConnectedPlayer(conn, prof, vhost, packet.LoginHandshakeIntent, online, nil, deps)
+	conn.SetActiveSessionHandler(state.Play, newInitialConnectSessionHandler(p))
+	return &C11Player{p: p}
+}
+
+// Player returns the wrapped player as the public interface value the registry hands out.
+func (c *C11Player) Player() Player { return c.p }
+
+// Active forwards to connectedPlayer.Active.
+func (c *C11Player) Active() bool { return c.p.Active() }
+
+// Drop closes the connection the way a read-loop error does (netmc.CloseUnknown).
+func (c *C11Player) Drop() { _ = netmc.CloseUnknown(c.p.MinecraftConn) }
+
+// C11CanRegister forwards to Proxy.canRegisterConnection.
+func C11CanRegister(px *Proxy, c *C11Player) bool { return px.canRegisterConnection(c.p) }
+
+// C11Register forwards to Proxy.registerConnection.
+func C11Register(px *Proxy, c *C11Player) bool { return px.registerConnection(c.p) }
+
+// C11Snapshot copies the two registry indices under the read lock.
+func C11Snapshot(px *Proxy) (names map[string]Player, ids map[uuid.UUID]Player) {
+	names, ids = map[string]Player{}, map[uuid.UUID]Player{}
+	px.muP.RLock()
+	defer px.muP.RUnlock()
+	for k, v := range px.playerNames {
+		names[k] = v
+	}
+	for k, v := range px.playerIDs {
+		ids[k] = v
+	}
+	return names, ids
+}
